@@ -3,7 +3,8 @@
 package provider
 
 // VerifPoint, when set, is called at named points of the sweeping provider
-// (the swarm exploration stopping early). It exists for the verification
+// (the swarm exploration stopping early, a prefix entering the schedule and
+// replacing the longer prefixes under it). It exists for the verification
 // harness only and is compiled in with the verif build tag.
 var VerifPoint func(point string, prefix string)
 
